@@ -1649,6 +1649,38 @@ class TypedDictValue(GenericValue):
             if not self.extra_keys_readonly and other.extra_keys_readonly:
                 return CanAssignError(f"Extra keys are readonly in {other}")
             if self.extra_keys is not None:
+                # Keys that only the other TypedDict declares are extra keys for us
+                for key, their_entry in other.items.items():
+                    if key in self.items:
+                        continue
+                    can_assign = self.extra_keys.can_assign(their_entry.typ, ctx)
+                    if isinstance(can_assign, CanAssignError):
+                        if self.extra_keys is NO_RETURN_VALUE:
+                            return CanAssignError(
+                                f"Key {key!r} is not allowed in closed TypedDict {self}"
+                            )
+                        return CanAssignError(
+                            f"Type for key {key} is incompatible with extra keys type"
+                            f" {self.extra_keys}",
+                            children=[can_assign],
+                        )
+                    bounds_maps.append(can_assign)
+                    if not self.extra_keys_readonly:
+                        if their_entry.required:
+                            return CanAssignError(
+                                f"Mutable extra key {key} is required in {other}"
+                            )
+                        if their_entry.readonly:
+                            return CanAssignError(
+                                f"Mutable extra key {key} is readonly in {other}"
+                            )
+                        can_assign = their_entry.typ.can_assign(self.extra_keys, ctx)
+                        if isinstance(can_assign, CanAssignError):
+                            return CanAssignError(
+                                f"Type for mutable extra key {key} is incompatible",
+                                children=[can_assign],
+                            )
+                        bounds_maps.append(can_assign)
                 their_extra_keys = other.extra_keys or TypedValue(object)
                 can_assign = self.extra_keys.can_assign(their_extra_keys, ctx)
                 if isinstance(can_assign, CanAssignError):
